@@ -336,17 +336,40 @@ def systematic_programs():
     P.append([asg("X1", T1), blk([(c1, [asg("X1", bin_("mul", T1, num(2)))])]), blk([(c2, [asg("X1", num(3))]), (c3, [asg("X1", num(4))])])])
     P.append([asg("X1", T1), blk([(c1, [blk([(c2, [asg("X1", num(5))])], [asg("X1", num(6))])])], [asg("X1", num(7))])])
     P.append([asg("X1", T1), blk([(c1, [lif(c3, "X1", num(8))]), (c2, [])], [asg("X1", num(9))]), blk([(c1, [])], [asg("X2", num(1))])])
+    # a variable defined BEFORE a block IF that has an ELSE, assigned in some arm but not in every arm: it must keep its
+    # previous value on the arms that do not assign it (no shape of PharmpyIf.Hazards: every later arm assigns only
+    # symbols that the earlier arms assign as well)
+    keep1 = [asg("X1", T1), asg("X2", T2),
+             blk([(c1, [asg("X1", bin_("mul", T1, num(2))), asg("X2", num(3))])], [asg("X2", num(4))])]
+    keep2 = [asg("X1", T1), asg("X2", T2),
+             blk([(c1, [asg("X1", num(5)), asg("X2", num(6))]), (c2, [asg("X2", num(7))])], [asg("X2", num(8))])]
+    keep3 = [asg("X1", T1), asg("X2", T2), asg("ZZ", T3),
+             blk([(c2, [asg("X1", num(1)), asg("X2", num(2)), asg("ZZ", num(3))]), (c3, [asg("X1", num(4)), asg("X2", num(5))])],
+                 [asg("X2", num(6))])]
+    keep4 = [asg("X1", T1), asg("X2", T2),
+             blk([({"k": "not", "a": c1}, [asg("X1", bin_("add", T1, num(1))), asg("X2", T3)])], [asg("X2", bin_("sub", T2, num(1)))]),
+             asg("ZZ", bin_("add", var("X1"), var("X2")))]
+    P += [keep1, keep2, keep3, keep4]
     out = []
     for i, body in enumerate(P):
         out.append(body + [asg("Y", bin_("add", var("X1"), var("EPS(1)")))])
     return out
 
 
+def systematic_envs():
+    """fixed probes of the systematic programs: every condition they use (WGT > 2, APGR < 5, ETA(1) = 1 and the
+    relations of W / APGR / THETA(1) with 2 / 7 / W) is true in one probe and false in another"""
+    base = {"THETA(1)": [3, 2], "THETA(2)": [2, 1], "THETA(3)": [4, 1], "ETA(2)": [-2, 1], "EPS(1)": [3, 1], "TIME": [5, 2], "AMT": [25, 1]}
+    return [dict(base, **{"WGT": [4, 1], "APGR": [3, 1], "ETA(1)": [1, 1]}),
+            dict(base, **{"WGT": [1, 1], "APGR": [7, 1], "ETA(1)": [0, 1], "THETA(1)": [5, 2]}),
+            dict(base, **{"WGT": [9, 4], "APGR": [10, 1], "ETA(1)": [1, 1], "THETA(1)": [-7, 2], "THETA(2)": [1, 2], "THETA(3)": [9, 4]})]
+
+
 def pred_cases(rng: random.Random, n_random: int, first_id=1):
     cases = []
     cid = first_id
     for body in systematic_programs():
-        cases.append({"id": cid, "kind": "pred", "prog": body, "envs": probe_envs(rng, PRED_INPUTS, 3), "origin": "systematic"})
+        cases.append({"id": cid, "kind": "pred", "prog": body, "envs": systematic_envs(), "origin": "systematic"})
         cid += 1
     g = Gen(rng)
     for _ in range(n_random):
